@@ -1,7 +1,8 @@
 (* C02 — property theorems only. Source = C02.Src, regenerated from /repo on this run. *)
 From Coq Require Import Reals ZArith String List Bool Lra.
 Require Import Py.PyAst Py.PyVal Py.PySem Py.XLemmas.
-Require Import C02.Src C02.Model C02.Edge.
+Require Import Py.Sym.
+Require Import C02.Src C02.Model C02.Edge C02.BoxN.
 Import ListNotations.
 Open Scope string_scope.
 Open Scope R_scope.
@@ -111,3 +112,25 @@ Proof. intros; split; [apply mean_in_closed_range_accepted_gom; assumption | int
 Print Assumptions C02_mean_on_range_edge_accepted.
 Example C02_edge_nonvacuous : (1/2 <= 1/2 <= 5) /\ (0 <= 1 <= 1).
 Proof. lra. Qed.
+
+(* THE PRIOR BOX FOR SAMPLING VECTORS OF ANY LENGTH n (the loop `for i in range(0, len(args))` taken by induction over the interpreter):
+   with [box_ok] the statement "every component lies in [lower_i, upper_i]" (edges included),
+     - if some component is outside, the value is -inf, the oracle log is EMPTY (nothing at all is evaluated, not even args2kwargs) and no
+       random variate is consumed - whatever the declared cosmology;
+     - if all components are inside (flat model), the value is the lens-sample value, evaluated exactly once after args2kwargs. *)
+Theorem C02_box_any_length : forall (Ls : R) (cosmology : string) om ok h (xs los his : list R) rg cu,
+  length los = length xs -> length his = length xs ->
+  (~ box_ok xs los his ->
+   yields (Gt Ls om ok h) 100 (CFun src_CosmoLikelihood_likelihood) (Some (selfN cosmology los his)) [VList (map snum xs)] [] rg cu
+     (VNum NegInf) cu []) /\
+  (box_ok xs los his -> exists log,
+   yields (Gt Ls om ok h) 100 (CFun src_CosmoLikelihood_likelihood) (Some (selfN "FLCDM" los his)) [VList (map snum xs)] [] rg cu
+     (snum Ls) cu log /\ map fst log = ["lens"; "cosmo"; "args2kwargs"]).
+Proof.
+  intros Ls cosmology om ok h xs los his rg cu Hl Hh. pose proof (box_check_spec xs los his Hl Hh) as Hs. split.
+  - intros Hn. apply box_outside_any_length; try assumption. destruct (box_check xs los his); [exfalso; apply Hn, Hs; reflexivity | reflexivity].
+  - intros Hb. apply box_inside_any_length; try assumption. apply Hs. exact Hb.
+Qed.
+Print Assumptions C02_box_any_length.
+Example C02_box_any_length_nonvacuous : box_ok [1; 2; 3; 4; 5] [0; 0; 0; 0; 5] [1; 9; 9; 9; 9] /\ ~ box_ok [1; 2; 3; 4; 5] [0; 0; 0; 0; 0] [9; 9; 9; 9; 4].
+Proof. cbn. lra. Qed.
